@@ -259,3 +259,33 @@ def element_roundtrip_ignores_own_tail(i: int) -> bool:
     from harness.common import XPathContext as _C, L as _L
     r = _L(T_XML17['rt_elem'].evaluate(_C(doc, variables={'omit': True})))
     return len(r) >= 5 and all(x is True for x in r) and _L(T_XML17['twins'].evaluate(_C(doc))) == [True] and _L(T_XML17['not_twins'].evaluate(_C(doc))) == [False]
+
+
+try:
+    import lxml.etree as _LX17
+except ImportError:      # pragma: no cover
+    _LX17 = None
+T_XML17.update(parse_all({'rt_doc': 'deep-equal(parse-xml(serialize(/)), /)', 'n_doc': 'count(parse-xml(serialize(/))/node())',
+                          'ser_each': 'for $e in //* return serialize($e)'}))
+
+
+@ob(budget=60, tbudget=300, kind='hunt', bound='lxml document with 0..2 comments and 0..1 PI before and 0..1 comment after the root element (counts chosen by '
+                                   'the solver): parse-xml(serialize(/)) is deep-equal to / and has as many top-level nodes; an element whose tail needs '
+                                   'escaping is serialized without it (expat / lxml are C code: bug-hunting)',
+    funcs=['elementpath/serialization.py:serialize_to_xml'])
+def document_with_siblings_roundtrip(nb: int, pb: int, na: int) -> bool:
+    """
+    pre: 0 <= nb <= 2 and 0 <= pb <= 1 and 0 <= na <= 1
+    post: _
+    """
+    if _LX17 is None:
+        return True
+    nb = 0 if nb == 0 else 1 if nb == 1 else 2
+    pb = 1 if pb == 1 else 0
+    na = 1 if na == 1 else 0
+    from harness.common import XPathContext as _C, L as _L
+    doc = _LX17.fromstring('<!--b-->' * nb + '<?p q?>' * pb + '<r>h<x>t</x>l&gt;&amp;<y/>tail</r>' + '<!--a-->' * na).getroottree()
+    if _L(T_XML17['rt_doc'].evaluate(_C(doc))) != [True] or _L(T_XML17['n_doc'].evaluate(_C(doc))) != [nb + pb + na + 1]:
+        return False
+    each = _L(T_XML17['ser_each'].evaluate(_C(doc)))
+    return each[1:] == ['<x>t</x>', '<y/>'] or each[1:] == ['<x>t</x>', '<y />']
